@@ -40,14 +40,34 @@ static int enc(const struct cstl_slist_node *p, int l)
     if (id <= 0) { bad = 1; return 0; }
     return id;
 }
+/* VERIF_NESTCMP=1: every comparison first sorts a list of its own (three elements, another comparison function and
+ * private pointer), the way a comparator over elements that own lists sorts them lazily; the inner result must be in
+ * order and the outer sort must not notice */
+static int NESTCMP, in_nest;
+static int cmp_inner(const void *a, const void *b, void *p)
+{
+    e_check_priv2(p);
+    return e_cmp3(((const struct el *)b)->val, ((const struct el *)a)->val);       /* descending */
+}
+static void nested_sort(void)
+{
+    static struct el in[3]; struct cstl_slist IL; struct el *f; int i;
+    cstl_slist_init(&IL, offsetof(struct el, n2));
+    for (i = 0; i < 3; i++) { in[i].val = (i * 2) % 3 + 1; cstl_slist_push_back(&IL, &in[i]); }      /* 1 3 2 */
+    in_nest = 1; cstl_slist_sort(&IL, cmp_inner, E_PRIV2); in_nest = 0;
+    f = cstl_slist_front(&IL);
+    if (!f || f->val != 3 || cstl_slist_size(&IL) != 3) e_forced_outcome = "badnest";
+}
 static int cmp(const void *a, const void *b, void *p)
 {
     e_check_priv(p);
+    if (NESTCMP && !in_nest) nested_sort();
     return e_cmp3(((const struct el *)a)->val, ((const struct el *)b)->val);
 }
 static void drv_setup(int argc, char **argv)
 {
     int i; const char *v;
+    NESTCMP = getenv("VERIF_NESTCMP") != NULL;
     if (argc < 2) { fprintf(stderr, "drv_slist: scope = <vals> <nlists> [probes]\n"); exit(64); }
     v = argv[0]; N = (int)strlen(v); NL = atoi(argv[1]);
     if (argc > 2) PROBES = atoi(argv[2]);
